@@ -373,3 +373,48 @@ package sod
 //@ loop 2 invariant [sep] sepFields(in)
 //@ modifies objIndex.i@in, MapDom[string,uint64]@in.uuids, MapVal[string,uint64]@in.uuids, MapCard[string,uint64]@in.uuids, MapDom[uint64,string]@in.ObjectIds, MapVal[uint64,string]@in.ObjectIds, MapCard[uint64,string]@in.ObjectIds, fieldIndex.Index, fieldIndex.pos, MapDom[uint64,*indexedField], MapVal[uint64,*indexedField], MapCard[uint64,*indexedField], Elem[*indexedField]
 //@ allocates indexedField.Value, indexedField.ObjectId, Elem[interface{}]
+
+//@ func (*objIndex).deleteByUUID
+//@ serves C01 C02 C03 C11 C19 C20
+//@ requires [wf] wfIndex(in)
+//@ let known bool := has(in.uuids, uuid)
+//@ let id uint64 := in.uuids[uuid]
+//@ ensures [C03 C20 dbu.counter] in.i == old(in.i)
+//@ ensures [C01 dbu.uuids] forallk(w, string, has(in.uuids, w) == (old(has(in.uuids, w)) && w != uuid)) && forallk(w, string, imp(w != uuid, in.uuids[w] == old(in.uuids[w])))
+//@ ensures [C01 dbu.objids] forallk(k, uint64, has(in.ObjectIds, k) == (old(has(in.ObjectIds, k)) && !(known && k == id))) && forallk(k, uint64, imp(!(known && k == id), in.ObjectIds[k] == old(in.ObjectIds[k])))
+//@ ensures [C02 dbu.fields-same] in.Fields == old(in.Fields) && in.uuids == old(in.uuids) && in.ObjectIds == old(in.ObjectIds) && forallk(f, string, has(in.Fields, f) == old(has(in.Fields, f)) && in.Fields[f] == old(in.Fields[f]))
+//@ ensures [C02 C20 dbu.others] forallk(f, string, imp(has(in.Fields, f), forallk(k, uint64, imp(!(known && k == id), in.Fields[f].objectIds[k] == old(in.Fields[f].objectIds[k])))))
+//@ ensures [C03 dbu.wf] wfIndex(in)
+//@ loop 1 invariant [frame-maps] preserved(MapDom[string,*fieldIndex], MapVal[string,*fieldIndex], fieldIndex.objectIds, fieldIndex.nameSplit, fieldIndex.Constraints)
+//@ loop 1 invariant [wf-all] forallk(f, string, imp(has(in.Fields, f), in.Fields[f] != nil && allocated(in.Fields[f]) && wfField(in.Fields[f]) && imp(len(in.Fields[f].Index) > 0, rank(in.Fields[f].Index[0].Value) == fieldrank(in.otype, f))))
+//@ loop 1 invariant [ids-visited] forallk(f, string, imp(has(in.Fields, f) && visited(f), forallk(k, uint64, has(in.Fields[f].objectIds, k) == (has(in.ObjectIds, k) && k != id))))
+//@ loop 1 invariant [ids-unvisited] forallk(f, string, imp(has(in.Fields, f) && !visited(f), forallk(k, uint64, has(in.Fields[f].objectIds, k) == has(in.ObjectIds, k))))
+//@ loop 1 invariant [others] forallk(f, string, imp(has(in.Fields, f), forallk(k, uint64, imp(k != id, in.Fields[f].objectIds[k] == old(in.Fields[f].objectIds[k])))))
+//@ loop 1 invariant [sep] sepFields(in)
+//@ modifies MapDom[string,uint64]@in.uuids, MapVal[string,uint64]@in.uuids, MapCard[string,uint64]@in.uuids, MapDom[uint64,string]@in.ObjectIds, MapVal[uint64,string]@in.ObjectIds, MapCard[uint64,string]@in.ObjectIds, fieldIndex.Index, fieldIndex.pos, MapDom[uint64,*indexedField], MapVal[uint64,*indexedField], MapCard[uint64,*indexedField], Elem[*indexedField]
+
+//@ func (*fieldIndex).SearchByRegex
+//@ serves C02 C13 C19 C20
+//@ requires [pre] idxPre(in, value)
+//@ ghost src garray[int]int := src
+//@ ghost dst garray[int]int := dst
+//@ ensures [C19 rx.err] (err == nil) == (!isVStr(value.Value) || validPattern(vstr(value.Value)))
+//@ ensures [C19 rx.err-empty] imp(err != nil || !isVStr(value.Value), len(out) == 0)
+//@ ensures [C02 rx.sound] imp(err == nil && isVStr(value.Value), forall(y, 0, len(out), 0 <= src[y] && src[y] < len(in.Index) && out[y] == in.Index[src[y]] && rmatch(vstr(value.Value), vstr(out[y].Value))))
+//@ ensures [C02 C13 rx.order] imp(err == nil && isVStr(value.Value), forall(y, 0, len(out), forall(z, y+1, len(out), touch(out[y]) && touch(out[z]) && src[y] < src[z])))
+//@ ensures [C02 rx.complete] imp(err == nil && isVStr(value.Value), forall(x, 0, len(in.Index), imp(rmatch(vstr(value.Value), vstr(in.Index[x].Value)), 0 <= dst[x] && dst[x] < len(out) && out[dst[x]] == in.Index[x])))
+//@ ensures [C20 rx.fresh] fresh(arr(out))
+//@ loop 1 ghost src garray[int]int
+//@ loop 1 ghost dst garray[int]int
+//@ loop 1 update src y := ite(isVStr(in.Index[rangeindex+1].Value) && rmatch(vstr(value.Value), vstr(in.Index[rangeindex+1].Value)) && y == len(out)-1, rangeindex+1, src[y])
+//@ loop 1 update dst x := ite(isVStr(in.Index[rangeindex+1].Value) && rmatch(vstr(value.Value), vstr(in.Index[rangeindex+1].Value)) && x == rangeindex+1, len(out)-1, dst[x])
+//@ loop 1 invariant [bounds] (-1 <= rangeindex && rangeindex < len(in.Index)) || (rangeindex == -1 && len(in.Index) == 0)
+//@ loop 1 invariant [frame] preserved(Elem[*indexedField])
+//@ loop 1 invariant [string-probe] imp(isVStr(value.Value), rex != nil && rexsrc(rex) == vstr(value.Value))
+//@ loop 1 invariant [out] fresh(arr(out)) && len(out) <= rangeindex+1 && imp(!isVStr(value.Value), len(out) == 0)
+//@ loop 1 invariant [sound] forall(y, 0, len(out), 0 <= src[y] && src[y] <= rangeindex && out[y] == in.Index[src[y]] && rmatch(vstr(value.Value), vstr(out[y].Value)))
+//@ loop 1 invariant [mono] forall(y, 0, len(out), forall(z, y+1, len(out), touch(out[y]) && touch(out[z]) && src[y] < src[z]))
+//@ loop 1 invariant [complete] forall(x, 0, rangeindex+1, imp(rmatch(vstr(value.Value), vstr(in.Index[x].Value)), 0 <= dst[x] && dst[x] < len(out) && out[dst[x]] == in.Index[x]))
+//@ loop 1 decreases len(in.Index) - rangeindex
+//@ modifies nothing
+//@ allocates Elem[*indexedField]
